@@ -190,18 +190,21 @@ class TwoLayerGas(Gas):
                                     np.log(Pnodes[::-1]),
                                     np.log10(Cnodes[::-1]))
 
-        wsize = nlayers * (smooth_window / 100.0)
+        wsize = int(nlayers * (smooth_window / 100.0))
 
         if (wsize % 2 == 0):
             wsize += 1
 
-        C_smooth = 10**movingaverage(np.log10(chemprofile), int(wsize))
+        C_smooth = 10**movingaverage(np.log10(chemprofile), wsize)
 
         border = int((len(chemprofile) - len(C_smooth)) / 2)
 
         self._mix_profile = chemprofile[::-1]
 
-        self._mix_profile[border:-border] = C_smooth[::-1]
+        if len(C_smooth) == len(chemprofile):
+            self._mix_profile = C_smooth[::-1]
+        else:
+            self._mix_profile[border:-border] = C_smooth[::-1]
 
     def write(self, output):
         gas_entry = super().write(output)
